@@ -262,10 +262,165 @@ class Program:
                         except SyntaxError:
                             continue
                         self.examples[f] = ModuleInfo("examples." + f[:-3], p, os.path.relpath(p, self.repo), tree, src)
+        self._normalise_delegates()
         for m in list(self.modules.values()) + list(self.examples.values()):
             self._index_module(m)
         self._normalise_aliases()
         self._normalise_calls()
+
+    def _normalise_delegates(self) -> None:
+        """Canonicalising pass run before indexing: a method that only hands its own parameters to a private method of the
+        same class which nothing else refers to,
+
+            def m(self, a, b=1):                      def m(self, a, b=1):
+                [with CTX:]                 ->            [with CTX:]
+                    return self._x(a, b)                      BODY of _x
+            def _x(self, a, b): BODY
+
+        is analysed as if the body were written in place (and `_x` is gone).  `_x` must be private by name (public methods are
+        part of the interface the rules are anchored at), not be defined in a class related by inheritance
+        (no override can intercept the call), be undecorated, take exactly the forwarded parameters, and be mentioned
+        nowhere else (attribute reference or string).  Behaviour is unchanged; rules anchored at `m` then see its work
+        whether or not the author moved it into a helper, e.g. to wrap it in a lock."""
+        refs: dict = {}          # attribute name -> references anywhere
+        strings: set = set()
+        mods = list(self.modules.values()) + list(self.examples.values())
+        classes = [c for m in mods for c in ast.walk(m.tree) if isinstance(c, ast.ClassDef)]
+        for m in mods:
+            for n in ast.walk(m.tree):
+                if isinstance(n, ast.Attribute):
+                    refs[n.attr] = refs.get(n.attr, 0) + 1
+                elif isinstance(n, ast.Constant) and isinstance(n.value, str) and n.value.isidentifier():
+                    strings.add(n.value)
+        own_refs: dict = {}      # (class, attribute name) -> `self.<name>` references inside the class
+        defining: dict = {}      # method name -> classes defining it
+        for c in classes:
+            for st in c.body:
+                if isinstance(st, (ast.FunctionDef, ast.AsyncFunctionDef)):
+                    defining.setdefault(st.name, []).append(c)
+            for n in ast.walk(c):
+                if isinstance(n, ast.Attribute) and isinstance(n.value, ast.Name) and n.value.id == "self":
+                    own_refs[(id(c), n.attr)] = own_refs.get((id(c), n.attr), 0) + 1
+        # simple-name inheritance relation, closed both ways: a method of a related class could intercept or share the call
+        by_name: dict = {}
+        for c in classes:
+            by_name.setdefault(c.name, []).append(c)
+
+        def base_names(c):
+            return {b.id if isinstance(b, ast.Name) else b.attr for b in c.bases if isinstance(b, (ast.Name, ast.Attribute))}
+
+        def related(c) -> set:
+            """ancestors and descendants of c (siblings under a common base do not see each other's private methods)"""
+            out = {id(c)}
+            for step in (lambda k: [b for nm in base_names(k) for b in by_name.get(nm, [])],
+                         lambda k: [d for d in classes if k.name in base_names(d)]):
+                work = [c]
+                while work:
+                    for d in step(work.pop()):
+                        if id(d) not in out:
+                            out.add(id(d))
+                            work.append(d)
+            return out
+
+        def exclusive(c, name, via) -> bool:
+            """`name` is referred to once inside `c`, only from inside the classes that define their own method of that name,
+            and no class related to `c` by inheritance defines it too."""
+            ds = defining.get(name, [])
+            if own_refs.get((id(c), name), 0) != 1 or name in strings:
+                return False
+            if sum(own_refs.get((id(d), name), 0) for d in ds) != refs.get(name, 0):
+                return False
+            rel = related(c)
+            # a related class may define its own `name` only when it overrides the delegating method in the same way (the pair
+            # is overridden together, so inlining both leaves every dispatch where it was)
+            return not any(d is not c and id(d) in rel and (id(d), via, name) not in pairs for d in ds)
+
+        def strip_doc(body):
+            if body and isinstance(body[0], ast.Expr) and isinstance(body[0].value, ast.Constant) and isinstance(body[0].value.value, str):
+                return body[:1], body[1:]
+            return [], body
+
+        def plain(fn) -> bool:
+            a = fn.args
+            return not (fn.decorator_list or a.vararg or a.kwarg or a.kwonlyargs or a.posonlyargs) and bool(a.args) and a.args[0].arg == "self"
+
+        def delegate_of(fn):
+            """(with-statement or None, call, value returned?) when the body of fn is one `self.<x>(...)` call, else None"""
+            _, body = strip_doc(fn.body)
+            if len(body) != 1:
+                return None
+            st, wrap = body[0], None
+            if isinstance(st, ast.With) and len(st.body) == 1:
+                wrap, st = st, st.body[0]
+            if isinstance(st, ast.Return) and isinstance(st.value, ast.Call):
+                call, is_ret = st.value, True
+            elif isinstance(st, ast.Expr) and isinstance(st.value, ast.Call):
+                call, is_ret = st.value, False
+            else:
+                return None
+            f = call.func
+            if not (isinstance(f, ast.Attribute) and isinstance(f.value, ast.Name) and f.value.id == "self"):
+                return None
+            return wrap, call, is_ret
+
+        pairs = set()
+        for c in classes:
+            for st in c.body:
+                if isinstance(st, ast.FunctionDef) and plain(st):
+                    d_ = delegate_of(st)
+                    if d_ is not None:
+                        pairs.add((id(c), st.name, d_[1].func.attr))
+
+        for m in mods:
+            for cls in [c for c in classes if any(c is n for n in ast.walk(m.tree))]:
+                again = True
+                while again:
+                    again = False
+                    methods = {st.name: st for st in cls.body if isinstance(st, ast.FunctionDef)}
+                    for fn in list(methods.values()):
+                        if not plain(fn):
+                            continue
+                        doc, _ = strip_doc(fn.body)
+                        d_ = delegate_of(fn)
+                        if d_ is None:
+                            continue
+                        wrap, call, is_ret = d_
+                        f = call.func
+                        x = methods.get(f.attr)
+                        if x is None or x is fn or not f.attr.startswith("_") or f.attr.startswith("__") or not plain(x) or not exclusive(cls, f.attr, fn.name):
+                            continue
+                        mine = [a.arg for a in fn.args.args[1:]]
+                        theirs = [a.arg for a in x.args.args[1:]]
+                        if call.keywords or len(call.args) != len(theirs) or len(mine) != len(theirs) or \
+                                [a.id if isinstance(a, ast.Name) else None for a in call.args] != mine:
+                            continue
+                        if any(isinstance(n, (ast.Yield, ast.YieldFrom, ast.Global, ast.Nonlocal)) for n in ast.walk(x)):
+                            continue
+                        if wrap is not None and any(isinstance(i.optional_vars, ast.AST) for i in wrap.items):
+                            continue
+                        if not is_ret and any(isinstance(n, ast.Return) and n.value is not None and
+                                              not (isinstance(n.value, ast.Constant) and n.value.value is None) for n in ast.walk(x)):
+                            continue
+                        ren = {b: a for a, b in zip(mine, theirs) if a != b}
+                        if ren:
+                            names = {n.id for n in ast.walk(x) if isinstance(n, ast.Name)} | {a.arg for n in ast.walk(x) if isinstance(n, ast.arguments) and n is not x.args for a in n.args}
+                            if any(a in names for a in ren.values()):
+                                continue
+                            for n in ast.walk(x):
+                                if isinstance(n, ast.Name) and n.id in ren:
+                                    n.id = ren[n.id]
+                        _, xbody = strip_doc(x.body)
+                        if not xbody:
+                            continue
+                        if wrap is not None:
+                            wrap.body = xbody
+                            fn.body = doc + [wrap]
+                        else:
+                            fn.body = doc + xbody
+                        fn.end_lineno = max(getattr(fn, "end_lineno", 0) or 0, getattr(x, "end_lineno", 0) or 0)
+                        cls.body.remove(x)
+                        again = True
+                        break
 
     def _normalise_aliases(self) -> None:
         """Third canonicalising pass: copy propagation of aliases of FINAL attributes.
